@@ -20,19 +20,26 @@ EXTENDS Integers, Sequences, TLC
 
 CONSTANTS YL, TH, MaxN, Y0
 
-VARIABLES md, A, i, year, yr, pc
-vars == <<md, A, i, year, yr, pc>>
+VARIABLES md, abs, A, i, year, yr, pc
+vars == <<md, abs, A, i, year, yr, pc>>
 N == Len(md)
 
-\* declarative
+\* abs[k][Y0 - y + 1] = the instant of message k when it is read with year y.  In the model-checking configuration
+\* it is y * YL + md[k]; in trace validation (TraceYearWalk) it is the table of real calendar instants of the
+\* rendered file, so that every statement below is evaluated on real dates.
+NYears == MaxN + 2
+Abs(k, y) == abs[k][Y0 - y + 1]
+AbsModel(m) == [k \in 1..Len(m) |-> [j \in 1..NYears |-> (Y0 - j + 1) * YL + m[k]]]
+
+\* declarative: the year steps back where, read in one and the same year, a message lies more than TH after the next one
 RECURSIVE YearOf(_)
 YearOf(k) == IF k = N THEN Y0
-             ELSE IF md[k] > md[k + 1] + TH THEN YearOf(k + 1) - 1 ELSE YearOf(k + 1)
-Abs(k, y) == y * YL + md[k]
+             ELSE IF Abs(k, Y0) > Abs(k + 1, Y0) + TH THEN YearOf(k + 1) - 1 ELSE YearOf(k + 1)
 \* the input is admissible: under the declarative dating, time never runs backwards by more than TH
 Admissible == \A k \in 1..N - 1 : Abs(k, YearOf(k)) <= Abs(k + 1, YearOf(k + 1)) + TH
 
 Init == /\ md \in UNION {[1..n -> 0..(YL - 1)] : n \in 1..MaxN}
+        /\ abs = AbsModel(md)
         /\ A \in {-1} \cup {y * YL + m : y \in (Y0 - 2)..Y0, m \in {0, YL \div 2}}
         /\ i = Len(md) /\ year = Y0 /\ yr = [k \in 1..Len(md) |-> 0] /\ pc = "walk"
 
@@ -46,7 +53,7 @@ Step ==
           /\ IF i = 1 THEN pc' = "done" /\ UNCHANGED <<i, year>>
              ELSE IF A # -1 /\ Abs(i, year) < A THEN pc' = "done" /\ UNCHANGED <<i, year>>
              ELSE i' = i - 1 /\ UNCHANGED <<year, pc>>
-  /\ UNCHANGED <<md, A>>
+  /\ UNCHANGED <<md, abs, A>>
 Next == Step
 Spec == Init /\ [][Next]_vars /\ WF_vars(Step)
 
